@@ -113,7 +113,10 @@ class C03(Oracle):
         spec = op[2]
         self.count("resolutions")
         if out.status == "exc":
-            raise Violation("C03", "a", "resolve-raised", {"operation": op, "error": repr(out.exc)})
+            if op[2][0] in ("qn", "nsobj"):
+                raise Violation("C03", "a", "resolve-raised", {"operation": op, "error": repr(out.exc)})
+            self.count("string_resolution_raised")  # an unresolvable string may be refused
+            return
         q = out.result
         t = spec[0]
         if t in ("qn", "nsobj"):
@@ -165,13 +168,6 @@ class C03(Oracle):
         if ns.uri != op[3]:
             raise Violation("C03", "b", "returned-namespace-other-uri",
                             {"operation": op, "returned": [ns.prefix, ns.uri]})
-        own = table(c)
-        bound = own.get(ns.prefix)
-        if bound is None and ns.prefix in pools.RESERVED:
-            bound = pools.RESERVED[ns.prefix]
-        if bound != op[3]:
-            raise Violation("C03", "b", "returned-prefix-not-bound-to-uri",
-                            {"operation": op, "returned": [ns.prefix, ns.uri], "table": own})
         if ns.prefix != op[2]:
             self.probe("clash_renamed_or_aliased")
         q = c.valid_qualified_name("%s:probe" % ns.prefix)
@@ -225,8 +221,7 @@ class C03(Oracle):
                 self.hand(c, a, "attribute-name")
                 if isinstance(v, QualifiedName):
                     self.hand(c, v, "attribute-value")
-                elif isinstance(v, Literal) and isinstance(v.datatype, QualifiedName):
-                    self.hand(c, v.datatype, "literal-datatype")
+
         # (c) re-resolution of every name ever handed out
         for printed, (uri, how) in s["handed"].items():
             q = c.valid_qualified_name(printed)
